@@ -159,6 +159,7 @@ func c01Concurrent(c *Ctx) {
 	if os.Getenv("VERIF_WIDE") != "1" {
 		c.Info["concurrent_part"] = "skipped: the wide instrumentation did not build on this tree (see check.sh)"
 		c.Note("concurrent part skipped: no wide instrumentation")
+		c.Exhaustive = false
 		return
 	}
 	e := c07NewEnv(c)
